@@ -164,6 +164,8 @@ class Loop:
             load_model()
 
         def w_init_schedule():
+            if world.truth is not None:
+                world.truth_load_all()
             try:
                 init_schedule()
             finally:
@@ -178,11 +180,17 @@ class Loop:
             node = world.zk.nodes.get(path)
             if node is not None and sorted(node.children) != sorted(children):
                 world.probes['stale_snapshot_processed'] += 1
-            raw = getattr(mastermod.Master.process, '__wrapped__', None)
-            if raw is not None:
-                raw(master, event)
-            else:
-                process(event)
+            events = world.lt_process_begin(path, children)
+            done = False
+            try:
+                raw = getattr(mastermod.Master.process, '__wrapped__', None)
+                if raw is not None:
+                    raw(master, event)
+                else:
+                    process(event)
+                done = True
+            finally:
+                world.lt_process_end(path, children, events, done)
             world.probes['events_processed'] += 1
             loop.phase = 'loop'
 
@@ -218,7 +226,13 @@ class Loop:
 
         def w_check_integrity():
             loop.phase = 'check_integrity'
-            check_integrity()
+            down_before = world.lt_integrity_begin()
+            done = False
+            try:
+                check_integrity()
+                done = True
+            finally:
+                world.lt_integrity_end(down_before, done)
             loop.integrity_runs += 1
             loop.phase = 'loop'
 
@@ -290,6 +304,9 @@ class Loop:
             raise simkit.HarnessError(
                 'loop tier: wait() outside the callback thread')
         self.handler_parked_on = event
+        probes = self.world.probes
+        probes['loop_watcher_blocked'] = \
+            probes.get('loop_watcher_blocked', 0) + 1
         try:
             while not event.is_set():
                 self.handler_co.yield_()
@@ -298,10 +315,15 @@ class Loop:
 
     def on_sleep(self, _seconds):
         if threading.current_thread() is self.master_co.thread:
+            probes = self.world.probes
+            probes['loop_main_sleeps'] = probes.get('loop_main_sleeps', 0) + 1
             self.at = 'sleep'
             self.master_co.yield_()
 
     def on_queued(self, item):
+        probes = self.world.probes
+        probes['loop_watch_deliveries'] = \
+            probes.get('loop_watch_deliveries', 0) + 1
         path = item[0]
         node = self.world.zk.nodes.get(path)
         if node is not None:
@@ -361,6 +383,7 @@ class LoopWorld:
         self.seen_cversion = {}
         master = mastermod.Master(ms.zkbackend.ZkBackend(client), 'cell')
         self.cur_cell = master.cell
+        self.lt_new_truth()
         loop = Loop(self, master, client, fault)
         self.loop = loop
         self.queue = master.queue
@@ -370,6 +393,7 @@ class LoopWorld:
             return False
         self.master = master
         self.probes['starts'] += 1
+        self.probes['loop_starts'] = self.probes.get('loop_starts', 0) + 1
         self.cycles_since_start = 0
         self.dirty_since_cycle = False
         return True
